@@ -2,4 +2,4 @@
 in lock-step with M1, judged by the oracles of harness/simengine/monitors.py)."""
 from ..e1 import E1Part
 
-PROP = E1Part("C07", [("timeouts",3),("leak",1),("graceful",1),("respawn",2)], ["C07","C03"], ["LokyModel.Props.C07"], quick=1400, thorough=40000, starve=0)
+PROP = E1Part("C07", [("timeouts",3),("leak",1),("graceful",1),("respawn",2)], ["C07","C03","C01"], ["LokyModel.Props.C07"], quick=1400, thorough=40000, starve=0)
